@@ -325,6 +325,12 @@ func (w *Worker) call(caller *frame, fn Value, args []Value) (res Value) {
 	panic(fmt.Sprintf("cannot call %T", fn))
 }
 
+// callSSAReal interprets fn's real body even if a model is registered (models use it as fallback).
+func (w *Worker) callSSAReal(caller *frame, fn *ssa.Function, args []Value) Value {
+	w.skipModel = fn
+	return w.callSSA(caller, fn, args, nil)
+}
+
 func (w *Worker) callSSA(caller *frame, fn *ssa.Function, args []Value, env []Value) Value {
 	if w.depth > 2000 {
 		panic(pathEnd{endBudget, "call depth > 2000 in " + fn.String()})
@@ -342,7 +348,9 @@ func (w *Worker) callSSA(caller *frame, fn *ssa.Function, args []Value, env []Va
 			w.ensureInit(fn.Pkg)
 			return nil
 		}
-		if m, ok := models[name]; ok {
+		if w.skipModel == fn {
+			w.skipModel = nil
+		} else if m, ok := models[name]; ok {
 			w.noteFn(name, "model")
 			fr := &frame{w: w, caller: caller, fn: fn}
 			w.concArgs(args)
